@@ -55,6 +55,14 @@ def replay_kani(pid, res, work, log):
     out = {"reproduced": False, "name": inst.name, "path": None, "what": "", "tags": []}
     ovdir = os.path.join(work, "ov")
     gen = os.path.join(work, "gen")
+    if getattr(inst, "sweep", None):
+        # families whose solver trace rarely fits in memory come with a native sweep of the same construction: try it first (a minute)
+        log("  replaying %s: native sweep %s first ..." % (inst.name, inst.sweep[1]))
+        v = {"name": inst.name, "candidates": [{"what": "; ".join(fc["desc"] for fc in res.failed_checks[:3])}]}
+        rep = replay_by_sweep(pid, v, work, log, module=inst.sweep[0], testname=inst.sweep[1])
+        if rep["reproduced"]:
+            rep["name"] = inst.name
+            return rep
     log("  replaying %s: extracting concrete values ..." % inst.name)
     import copy
     pinst = copy.copy(inst)
@@ -68,13 +76,6 @@ def replay_kani(pid, res, work, log):
     tests = [t for t in tests if not re.search(r"/// Check for `cover`", t)]
     if not tests:
         out["why"] = "no concrete playback test generated (%s %s)" % (r2.verdict, r2.reason)
-        if getattr(inst, "sweep", None):
-            # the trace did not fit: the family's native sweep (same construction, random inputs, real containers) decides
-            log("  no playback test (%s); running the native sweep %s instead" % (r2.reason, inst.sweep[1]))
-            v = {"name": inst.name, "candidates": [{"what": "; ".join(fc["desc"] for fc in res.failed_checks[:3])}]}
-            rep = replay_by_sweep(pid, v, work, log, module=inst.sweep[0], testname=inst.sweep[1])
-            rep["name"] = inst.name
-            return rep
         return out
     # prefer a test for a check located in the repository / harness oracle over std-internal ones
     test_src = tests[0]
